@@ -52,7 +52,7 @@ func main() { drv.Main("stall", run) }
 // case description (replayable)
 
 type op struct {
-	K       string `json:"k"`                 // new cancel update unpause apiupdate apicancel apipause | (requestor) request rcancel rupdate
+	K       string `json:"k"`                 // new cancel update unpause apiupdate apicancel apipause connect disconnect wait | (requestor) request rcancel rupdate
 	P       int    `json:"p,omitempty"`       // peer (1 = the possibly stalled peer, 2 = the other peer, 3 = a third)
 	R       int    `json:"r"`                 // request number
 	Ext     int    `json:"ext,omitempty"`     // payload bytes of the extension data (0 = none)
@@ -329,7 +329,7 @@ func newWorld(c scase, seq uint64) *world {
 		hooked: map[graphsync.RequestID]bool{}, newOps: map[graphsync.RequestID]op{}, updOps: map[graphsync.RequestID][]op{},
 		rspUpd: map[graphsync.RequestID]int{}, plans: map[int][]int{}, tagSeq: seq << 20}
 	w.net = &fakeNet{stalled: map[peer.ID]chan struct{}{}}
-	for i := 1; i <= 3; i++ {
+	for i := 1; i <= 5; i++ { // 4: connects during the history, 5: never seen before its first message
 		w.peers[i] = peerOf(i)
 	}
 	if c.Stalled {
@@ -549,6 +549,21 @@ func (w *world) apply(o op, v *verdict) error {
 				_ = w.gs.Pause(w.ctx, id)
 			}
 		}()
+	case "connect", "disconnect":
+		// a write to the message manager's peer table, through the network's connection notifications
+		// (the real PeerManager.Connected / Disconnected)
+		p := w.peers[o.P]
+		ok := callD(1500*time.Millisecond, func() {
+			if o.K == "connect" {
+				w.net.recv.Connected(p)
+			} else {
+				w.net.recv.Disconnected(p)
+			}
+		})
+		if !ok {
+			v.Note += fmt.Sprintf("%s of peer %d did not return; ", o.K, o.P)
+		}
+	case "wait":
 	default:
 		return fmt.Errorf("unknown op %q", o.K)
 	}
@@ -813,6 +828,21 @@ func itemTerm(o op) (string, error) {
 	return "", fmt.Errorf("no item for op %q", o.K)
 }
 
+// evTerm: one event of the history for the model; "" = nothing (a pure wait)
+func evTerm(o op) (string, error) {
+	switch o.K {
+	case "connect", "disconnect":
+		return fmt.Sprintf("EvPeerTable %d", o.P), nil
+	case "wait":
+		return "", nil
+	}
+	t, err := itemTerm(o)
+	if err != nil {
+		return "", err
+	}
+	return "EvMsg " + t, nil
+}
+
 func qitemTerm(o op) (string, error) {
 	switch o.K {
 	case "request":
@@ -856,13 +886,15 @@ func caseTerm(c scase, v verdict) (string, error) {
 	}
 	var ms []string
 	for _, o := range c.Ops {
-		t, err := itemTerm(o)
+		t, err := evTerm(o)
 		if err != nil {
 			return "", err
 		}
-		ms = append(ms, t)
+		if t != "" {
+			ms = append(ms, t)
+		}
 	}
-	pt, err := itemTerm(c.Probe)
+	pt, err := evTerm(c.Probe)
 	if err != nil {
 		return "", err
 	}
@@ -941,6 +973,35 @@ func probeOp(r *rng.R, rid int) op {
 	return o
 }
 
+// tableWrites: while a reservation of peer 1 is parked in an executor (a legitimate wait), the message manager's
+// peer table is written: peer 4 connects, peer 3 disconnects, the never-seen peer 5 sends its first request (its
+// queue is created) and must be answered; the probe may come from the never-seen peer as well
+func tableWrites(r *rng.R, c *scase, nextR *int) {
+	used5 := false
+	n := 0
+	for n == 0 {
+		if r.P(1, 2) {
+			c.Ops = append(c.Ops, op{K: "connect", P: 4})
+			n++
+		}
+		if r.P(1, 2) {
+			c.Ops = append(c.Ops, op{K: "disconnect", P: 3})
+			n++
+		}
+		if r.P(1, 3) && !used5 {
+			c.Ops = append(c.Ops, op{K: "new", P: 5, R: *nextR, W: "done", Blocks: []int{r.Range(80, 200), r.Range(1, 100)}})
+			*nextR++
+			used5 = true
+			n++
+		}
+	}
+	c.Probe = probeOp(r, *nextR)
+	if !used5 && r.P(1, 3) {
+		c.Probe.P = 5
+	}
+	c.Tags = append(c.Tags, "table-write-while-parked")
+}
+
 // family "site": the allowance of peer 1 is full; one loop-side call site transacts for peer 1
 func genSite(r *rng.R) scase {
 	c := baseCase(r, "resp", "site")
@@ -981,6 +1042,11 @@ func genSite(r *rng.R) scase {
 		c.Ops = append(c.Ops, setup, o)
 	}
 	c.Probe = probeOp(r, nextR)
+	if c.Stalled && ext == 0 && (site == "unpause" || site == "update-unpause") && r.P(2, 3) {
+		// the unpaused request's block does not fit the full allowance: an executor parks on peer 1's reservation
+		c.Ops = append(c.Ops, op{K: "wait", W: "stats", Exp: []int{1, 0, int(c.MaxPeer), setup.Blocks[0]}})
+		tableWrites(r, &c, &nextR)
+	}
 	c.Expect = "answered"
 	tagSite := strings.SplitN(site, "-", 2)[0]
 	if ext > 0 && c.Stalled {
@@ -1036,6 +1102,9 @@ func genPool(r *rng.R) scase {
 		c.Tags = append(c.Tags, "updates-not-paused")
 	}
 	c.Probe = probeOp(r, nextR)
+	if c.Stalled && busy < c.Workers && r.P(2, 3) {
+		tableWrites(r, &c, &nextR) // busy executors are parked on peer 1's reservations, one is free
+	}
 	c.Expect = "answered"
 	if c.Stalled && busy >= c.Workers {
 		c.Expect = "blocked"
@@ -1122,8 +1191,13 @@ func genMix(r *rng.R) scase {
 			}
 		}
 		c.Tags = append(c.Tags, "pending-then-status")
+		if r.P(2, 3) {
+			tableWrites(r, &c, &nextR)
+			goto probed
+		}
 	}
 	c.Probe = probeOp(r, nextR)
+probed:
 	c.Expect = "answered"
 	c.Tags = append(c.Tags, "no-loop-ext", "mix")
 	if c.Stalled {
